@@ -4,7 +4,11 @@ _NOTE = ("Trusted base: NumPy/SciPy numerics (incl. x87 long double), Hypothesis
          "Generated search never establishes absence; tolerances and domain narrowings are listed in the evidence 'assumptions'. "
          "Every check also spells optional arguments positionally (pinned signature order) in one case out of three, varies parameter "
          "containers / dtypes / memory layouts where the property takes arrays, and - where DESIGN 8.5 lists one - runs a fixed "
-         "enumeration of giant cases next to the random search. Records are float64 / integer / list (single-precision records and the "
+         "enumeration of giant cases next to the random search. Since session 4 every module also runs `mid-range*` enumerations: size "
+         "ladders (one size per logarithmic bin between the random generators' ~3e3 and the giant lists' 2^20, for every size dimension - samples, "
+         "periods / targets / rows / exponents - and for products of two, placed by a hash of VERIF_SEED, plus sizes aimed at the integer literals "
+         "of the source under test) with the whole output checked, option cross products, and object histories at those sizes (DESIGN 8.5 round 5, 8.6). "
+         "Records are float64 / int64 / full-range int16, int32, int8 / list containers in several memory layouts (single-precision RECORDS and the "
          "process-global numpy error state are outside the claimed domain, DESIGN 8.5 'limits').")
 
 CHECKS = {
@@ -123,6 +127,48 @@ CHECKS = {
 }
 
 NOT_APPLICABLE = {}
+
+
+def _extend_levels():
+    """Append the clause list actually registered in each module (names, kinds) and the evaluation count of the committed
+    quick evidence to the level text, so that the manifest cannot drift from the code."""
+    import importlib
+    import json
+    import os
+    import sys
+    verif = os.path.dirname(os.path.dirname(os.path.abspath(__file__)))
+    if verif not in sys.path:
+        sys.path.insert(0, verif)
+    os.environ.setdefault("VERIF_TIER", "quick")
+    try:
+        from pbt import core
+        core.import_eqsig()
+    except Exception:  # noqa
+        return
+    for pid, c in CHECKS.items():
+        try:
+            mod = importlib.import_module("pbt.props.%s" % pid.lower())
+        except Exception:  # noqa
+            continue
+        names = []
+        for cl in mod.CLAUSES:
+            kind = {"hyp": "generated", "enum": "enumeration", "machine": "state machine"}[cl.kind]
+            if getattr(cl, "thorough_only", False):
+                kind += ", thorough only"
+            names.append("%s (%s)" % (cl.name, kind))
+        ev = ""
+        try:
+            e = json.load(open(os.path.join(verif, "evidence", pid + ".json")))
+            if e.get("tier") == "quick":
+                ev = " Committed quick evidence (seed %s): %d evaluations, %d distinct non-trivial." % (
+                    e.get("seed"), e["coverage"]["evaluations"], e["coverage"]["distinct_nontrivial"])
+        except Exception:  # noqa
+            pass
+        c["level"] = c["level"] + " Clauses as registered: " + "; ".join(names) + "." + ev + \
+            " (Case counts quoted earlier in this text date from the first build; the clause list and the evidence file are current.)"
+
+
+_extend_levels()
 
 NOTES = ("All checks: ./vcheck <ID> [--tier quick|thorough] [--replay FILE]; VERIF_SEED honoured; exit 0 held / 1 VIOLATION / 2 harness error or "
          "inconclusive. Known findings: known_findings.json (committed, read-only at run time). Sensitivity mutants: selftest/. "
